@@ -30,7 +30,7 @@ def nontrivial(f):
 
 
 def run(sh):
-    n = 400 if sh.tier == 'quick' else 8000
+    n = 400 if sh.tier == 'quick' else 60000
     engine_line.run_profile(sh, 'C11', 'resources', n // 2, MONITORS, nontrivial)
     engine_line.run_profile(sh, 'C11', 'resfaults', n // 2, MONITORS, nontrivial)
 
